@@ -9,7 +9,10 @@ import (
 	"errors"
 	"flag"
 	"os"
+	"strconv"
 	"time"
+
+	"verif/harness/go2coq/internal/synthaux"
 )
 
 var Loud = flag.Bool("synthfail_loud", false, "")
@@ -170,3 +173,77 @@ func (m *M) Walk(keys []string) int {
 	os.Setenv("SYNTHFAIL_B", "")
 	return total
 }
+
+// ---- a second receiver: a written map in a field, element pointers, a pointer-valued field
+
+type Item = synthaux.Item
+type Bag = synthaux.Bag
+
+type N struct {
+	index map[string]string
+	bag   *Bag
+	label string
+}
+
+func NewN(items ...Item) *N {
+	return &N{index: make(map[string]string), bag: &Bag{Items: items}}
+}
+
+func (n *N) Fatalf(format string, args ...any) {
+	panic(failNow)
+}
+
+// Len uses the map in the two ways that copy nothing.
+func (n *N) Len() int {
+	c := 0
+	for range n.index {
+		c++
+	}
+	return c + len(n.index)
+}
+
+func (n *N) Index(k string) (string, bool) { v, ok := n.index[k]; return v, ok }
+func (n *N) Items() []Item                 { return n.bag.Items }
+
+// Note: v, ok := m[k] on a written map held in a field, a store into it, a no-return call, and
+// returns that carry the receiver (Segment.State).
+func (n *N) Note(k, v string) bool {
+	os.Getenv("SYNTHFAIL_A")
+	if k == "" {
+		n.Fatalf("empty key for %q", v)
+	}
+	if old, ok := n.index[k]; ok {
+		if old == v {
+			return false
+		}
+	}
+	n.index[k] = v
+	os.Setenv("SYNTHFAIL_B", "")
+	return true
+}
+
+// Fill: a loop over the elements through a pointer; the segment is the body after the pointer
+// is taken (a local pointer as state), with a jump after a no-return call.
+func (n *N) Fill(name, content string) bool {
+	found := false
+	for i := range n.bag.Items {
+		it := &n.bag.Items[i]
+		if it.Name != name {
+			continue
+		}
+		if content == "" {
+			n.Fatalf("no content for %q", it.Name)
+			continue
+		}
+		it.Data = []byte(content)
+		found = true
+	}
+	return found
+}
+
+// Total: a pointer-valued field handed to a table function, in the arguments of an effect.
+func (n *N) Total() {
+	os.Setenv(n.label, strconv.Itoa(synthaux.Size(n.bag)))
+}
+
+func (n *N) SetLabel(l string) { n.label = l }
